@@ -30,7 +30,8 @@ const MARKERS: &[&str] = &["diff ", "@@", "commit ", "--- ", "+++ ", "Binary fil
 
 pub fn failure_traits(cfg: &crate::gen::config::Cfg, input: &[u8]) -> Vec<String> {
     let mut v = Vec::new();
-    let s = String::from_utf8_lossy(input);
+    // (judged on the text with escape sequences removed, as delta parses it)
+    let s = crate::term::visible_text(input);
     if crate::gen::text::has_composite_cluster(&s) {
         v.push("composite-cluster".to_string());
     }
@@ -40,8 +41,15 @@ pub fn failure_traits(cfg: &crate::gen::config::Cfg, input: &[u8]) -> Vec<String
     if cfg.has("side-by-side") {
         v.push("side-by-side".to_string());
     }
-    if cfg.has("color-only") && s.lines().any(|l| l.contains('{')) {
-        v.push("color-only+json-line".to_string());
+    if cfg.has("color-only") {
+        v.push("color-only".to_string());
+    }
+    {
+        // a number written with leading zeros
+        let b = s.as_bytes();
+        if (0..b.len().saturating_sub(1)).any(|i| b[i] == b'0' && b[i + 1].is_ascii_digit() && (i == 0 || !b[i - 1].is_ascii_digit())) {
+            v.push("leading-zero-number".to_string());
+        }
     }
     // is the stream classified as plain `diff -u` output (first deciding line)?
     for l in s.lines() {
@@ -53,7 +61,8 @@ pub fn failure_traits(cfg: &crate::gen::config::Cfg, input: &[u8]) -> Vec<String
             break;
         }
     }
-    if s.lines().any(|l| match (l.find('\t'), l.find(|c| c == ':' || c == '-' || c == '=')) {
+    let raw = String::from_utf8_lossy(input);
+    if s.lines().chain(raw.lines()).any(|l| match (l.find('\t'), l.rfind(|c| c == ':' || c == '-' || c == '=')) {
         (Some(t), Some(sep)) => t < sep,
         _ => false,
     }) {
